@@ -13,8 +13,6 @@
 package main
 
 import (
-	"bytes"
-	"encoding/hex"
 	"encoding/json"
 	"fmt"
 	"io"
@@ -456,7 +454,7 @@ func streamChecks(c *Ctx, text string, nums []span, everyByte bool) {
 	c.Emit("(stream eof %d (%s) %s %s)", len(fullToks), strings.Join(fullToks, " "), implFin(res), sexpList(evs))
 	c.Count("stream:full")
 	// (i) fromstream rebuilds every document: harness's own fromstream on the implementation's events …
-	if rb, ok := rebuild(evs); !ok || !reflect.DeepEqual(normalize(rb), normalize(docs)) {
+	if rb, ok := rebuild(evs); !ok || !reflect.DeepEqual(rb, docs) {
 		c.Violation("%s :: the events do not rebuild the documents", caseText([]string{"--stream", "-c", "."}, text, nil))
 	}
 	// … and the in-language one
@@ -531,9 +529,6 @@ func streamChecks(c *Ctx, text string, nums []span, everyByte bool) {
 		}
 	}
 }
-
-// normalize json.Number literals for DeepEqual (compare by literal text) — identity here, kept for clarity
-func normalize(v any) any { return v }
 
 func sameLeafSets(evs []any, tostreamOut string) bool {
 	tevs, ok := decodeAll(tostreamOut)
@@ -1042,8 +1037,6 @@ func runC16(c *Ctx) {
 	}
 	defer os.RemoveAll(dir)
 	curCtx, curDir = c, dir
-	_ = hex.EncodeToString
-	_ = bytes.NewReader
 	n := c.N
 	for i := 0; i < n; i++ {
 		seekableStdin = c.Rng.Chance(1, 4)
@@ -1072,7 +1065,9 @@ func runC16(c *Ctx) {
 // number spans of a hand-written text without numbers inside strings
 func findNums(s string) []span {
 	var out []span
-	isn := func(b byte) bool { return b == '-' || b == '.' || b == '+' || b == 'e' || b == 'E' || (b >= '0' && b <= '9') }
+	isn := func(b byte) bool {
+		return b == '-' || b == '.' || b == '+' || b == 'e' || b == 'E' || (b >= '0' && b <= '9')
+	}
 	inStr := false
 	for i := 0; i < len(s); i++ {
 		if inStr {
